@@ -83,7 +83,7 @@ def applyPackFilter (ff : PackFilter) (m : Meta) : Except Cat Meta :=
 def applyUnpackFilter (myUid myGid : Nat) (ff : UnpackFilter) (m : Meta) : Outcome Meta :=
   let m := if ff.uid = ffContext then { m with uid := myUid } else if ff.uid ≠ ffKeep then { m with uid := toU32 ff.uid } else m
   let m := if ff.gid = ffContext then { m with gid := myGid } else if ff.gid ≠ ffKeep then { m with gid := toU32 ff.gid } else m
-  if ff.mtime = ffContext then .panic "unpack filter mtime=now not yet supported" else
+  if ff.mtime = ffContext then .err .usage else      -- "mtime=now not yet supported" (a panic before the fix)
   let m := if ff.mtime ≠ ffKeep then { m with mtime := ⟨ff.mtime, 0⟩ } else m
   let m := if ff.sticky ≠ ffKeep then { m with perms := clearBits m.perms permSticky } else m
   if ff.setid = ffReject ∧ m.perms &&& (permSetuid ||| permSetgid) ≠ 0 then .err .filterRejection else
